@@ -131,6 +131,13 @@ class PropertyCheck:
             if only is not None and q not in only:
                 continue
             try:
+                repo.lookup(q)
+            except KeyError:
+                # the function this contract is written on is no longer in the source (removed, renamed, moved): nothing
+                # can be proved or searched for it - undecided, never a silent pass and not a checker crash
+                self.missing = getattr(self, "missing", []) + [q]
+                continue
+            try:
                 ex = ver.verify_function(con)
             except Unsupported as u:
                 # the function has left the VC generator's fragment: bounded stand-in (runtime contract
@@ -400,6 +407,9 @@ class PropertyCheck:
             t = time.time()
             self.triage()
             self.bounded_standins()
+            for q in getattr(self, "missing", []):
+                print(f"MISSING function under contract is no longer in the source: {q}")
+                self.undecided.append({"obligation": q + ":function-under-contract-missing", "solver_status": "n/a", "native_tried": 0})
             self.phase["triage_s"] = round(time.time() - t, 2)
             t = time.time()
             if not self.undecided:
